@@ -1,0 +1,33 @@
+//go:build verif
+
+// Contracts for package eventloop, checked by /verif/govc (comment-only file).
+package eventloop
+
+// The ring buffer is specified against the abstract FIFO sequence (qlen, qat).
+//@ pure func qcap(q *queue) int = len(q.entries)
+//@ pure func qlen(q *queue) int = q.head == -1 ? 0 : (q.head <= q.tail ? q.tail - q.head + 1 : qcap(q) - q.head + q.tail + 1)
+//@ pure func qat(q *queue, i int) any = q.head + i < qcap(q) ? q.entries[q.head + i] : q.entries[q.head + i - qcap(q)]
+//@ pred qwf(q *queue) = qcap(q) >= 1 && ((q.head == -1 && q.tail == -1) || (0 <= q.head && q.head < qcap(q) && 0 <= q.tail && q.tail < qcap(q)))
+
+//@ func newQueue property C14
+//@   requires capacity >= 1 && capacity <= 4611686018427387904
+//@   ensures [empty] result.head == -1 && result.tail == -1 && len(result.entries) == capacity
+
+//@ func (*queue).push property C14
+//@   requires qwf(q)
+//@   ensures [wf] qwf(q) && qcap(q) == old(qcap(q))
+//@   ensures [grow] old(qlen(q)) < qcap(q) ==> qlen(q) == old(qlen(q)) + 1 && droppedEvent == nil && (forall i int :: 0 <= i && i < old(qlen(q)) ==> qat(q, i) == old(qat(q, i))) && qat(q, old(qlen(q))) == entry
+//@   ensures [drop] old(qlen(q)) == qcap(q) ==> qlen(q) == qcap(q) && droppedEvent == old(qat(q, 0)) && (forall i int :: 0 <= i && i < qcap(q) - 1 ==> qat(q, i) == old(qat(q, i + 1))) && qat(q, qcap(q) - 1) == entry
+//@   modifies q.head, q.tail, q.entries[*]
+
+//@ func (*queue).pop property C14
+//@   requires qwf(q)
+//@   ensures [wf] qwf(q) && qcap(q) == old(qcap(q))
+//@   ensures [empty] old(qlen(q)) == 0 ==> !ok && entry == nil && qlen(q) == 0
+//@   ensures [front] old(qlen(q)) > 0 ==> ok && entry == old(qat(q, 0)) && qlen(q) == old(qlen(q)) - 1 && (forall i int :: 0 <= i && i < qlen(q) ==> qat(q, i) == old(qat(q, i + 1)))
+//@   modifies q.head, q.tail
+
+//@ func (*queue).len property C14
+//@   requires qwf(q)
+//@   ensures [def] result == qlen(q)
+//@   ensures [bounds] 0 <= result && result <= qcap(q)
